@@ -3,7 +3,7 @@
 import copy
 
 from . import registry
-from .exceptions import ParseError
+from .exceptions import CustomContentError, ParseError
 from .utils import _get_dict, detect_spec_version
 
 
@@ -96,7 +96,17 @@ def dict_to_stix2(stix_dict, allow_custom=False, interoperability=False, version
                 return stix_dict
         raise ParseError("Can't parse unknown object type '%s'! For custom types, use the CustomObject decorator." % obj_type)
 
-    return obj_class(allow_custom=allow_custom, interoperability=interoperability, **stix_dict)
+    obj = obj_class(allow_custom=allow_custom, interoperability=interoperability, **stix_dict)
+
+    if not allow_custom and obj.has_custom:
+        # The constructors treat a "custom_properties" keyword as a request to
+        # allow customization.  In parsed content it is just another key, and
+        # must not override the caller's allow_custom=False.
+        raise CustomContentError(
+            "customized {} object found".format(obj_type),
+        )
+
+    return obj
 
 
 def parse_observable(data, _valid_refs=None, allow_custom=False, interoperability=False, version=None):
@@ -144,4 +154,13 @@ def parse_observable(data, _valid_refs=None, allow_custom=False, interoperabilit
             "use the CustomObservable decorator." % obj['type'],
         )
 
-    return obj_class(allow_custom=allow_custom, interoperability=interoperability, **obj)
+    parsed = obj_class(allow_custom=allow_custom, interoperability=interoperability, **obj)
+
+    if not allow_custom and parsed.has_custom:
+        # See dict_to_stix2(): a "custom_properties" key in the content must
+        # not override the caller's allow_custom=False.
+        raise CustomContentError(
+            "customized {} observable found".format(obj_type),
+        )
+
+    return parsed
